@@ -8,13 +8,13 @@ from vlib.verdict import Case
 PROPERTY = 'C13'
 MANIFEST = {
  'level_text': 'Lean 4 theorems about a model of the command tokenizer (the shlex read_token/get_token state machine with pushback and backslash flag, Tokenizer.tokenize/_insideBrackets/_handleToken including the byte-level utf8 -> unicode_escape -> latin-1 -> utf8 decoding chain, callbacks.tokenize, utils.str.dqrepr): tokenising any string under any valid configuration yields a token tree or a syntax error, never another failure; any list of arguments written in double quotes with backslash escaping tokenises back to exactly that list (all Unicode, all bracket styles, pipe on/off, all quote sets containing the double quote); any tree rendered with brackets and quoted leaves tokenises back to exactly that tree, and with nesting off the result has no sub-lists; the dqrepr writer round-trips outside one exactly characterised class (recorded finding). Kernel-checked, constants regenerated from /repo on every run, model tied to the code by a differential correspondence run at five levels (tokenize, Tokenizer, lexer, _handleToken, unicode_escape codec) that also evaluates the property statement on the implementation.',
- 'level_note': 'Trusted: Lean kernel (axioms propext/Classical.choice/Quot.sound only); Lean core UTF-8 codec (String.utf8EncodeChar / ByteArray.utf8Decode?, with the core round-trip theorem) standing for Python str.encode("utf8") / bytes.decode(); harness/extractors/tokenizer.py; the correspondence harness. Modelled and proved: shlex lexer as configured by Tokenizer (commenters empty - checked by the extractor), parser incl. pipe epilogue, codec chain incl. octal/hex/u/U escapes and all error branches, callbacks.tokenize configuration logic, dqrepr. Outside the model: \\N{name} escapes (model answers "outside", those cases are only checked for totality on the implementation), CPython recursion limit (depth <= 200 in generators; one IRC line carries < 500 brackets), input strings with lone surrogates, registry lookup (getSpecific) of the four configuration values.',
+ 'level_note': 'Trusted: Lean kernel (axioms propext/Classical.choice/Quot.sound only); Lean core UTF-8 codec (String.utf8EncodeChar / ByteArray.utf8Decode?, with the core round-trip theorem) standing for Python str.encode("utf8") / bytes.decode(); harness/extractors/tokenizer.py; the correspondence harness. Modelled and proved: shlex lexer as configured by Tokenizer (commenters empty - checked by the extractor), parser incl. pipe epilogue, codec chain incl. octal/hex/u/U escapes and all error branches, callbacks.tokenize configuration logic, dqrepr. Tokens are lists of code points, so the lone-surrogate tokens that \\ud800..\\udfff escapes produce are inside the model (recorded finding C13-surrogate-escape-token; every other token is a string of Unicode scalar values). Outside the model: \\N{name} escapes (model answers "outside", those cases are only checked for totality on the implementation), CPython recursion limit (depth <= 200 in generators; one IRC line carries < 500 brackets), input strings with lone surrogates, registry lookup (getSpecific) of the four configuration values.',
  'technique': 'Lean 4 proof (induction on input / fuel, state invariant, measure) + table extraction + differential correspondence',
  'design_ref': 'DESIGN.md §6 C13',
 }
 THEOREMS = ['C13.tables_ok', 'C13.tokenize_total', 'C13.quote_roundtrip', 'C13.nesting_exact', 'C13.nesting_disabled_flat',
             'C13.dqrepr_reread', 'C13.dqrepr_roundtrip_partial', 'C13.dqrepr_roundtrip_counterexample',
-            'C13.dqrepr_class_exact']
+            'C13.dqrepr_class_exact', 'C13.surrogate_escape_token', 'C13.writers_scalar']
 TRUSTED = ['Lean 4.33.0 kernel; axioms ⊆ {propext, Classical.choice, Quot.sound}',
            'Lean core String.utf8EncodeChar / ByteArray.utf8Decode? as the meaning of Python utf-8 encode / strict decode (exercised differentially incl. overlong, surrogate and truncated sequences)',
            'harness/extractors/tokenizer.py (shlex whitespace, Tokenizer separators, commenters == "", ValidBrackets, ValidQuotes → Gen/Tokenizer.lean)',
@@ -25,6 +25,7 @@ RULE = ('seeded streams: (raw) strings over an alphabet dense in quotes, backsla
         'quote sets; (handle) single tokens dense in escape sequences and near-miss UTF-8; (uesc) byte strings through the unicode_escape codec. '
         'A case is non-trivial when the model took a non-default branch (quoted token, escape kind, bracket, pipe, error kind); distinct = distinct input.')
 FINDING_DQREPR = 'C13-dqrepr-latin1-reread'
+FINDING_SURR = 'C13-surrogate-escape-token'
 
 # --------------------------------------------------------------------------------------------
 # canonical forms
@@ -154,6 +155,23 @@ class Impl(object):
 def quote(x):
     """the argument written in double quotes with backslash escaping (the property's writer)"""
     return '"' + x.replace('\\', '\\\\').replace('"', '\\"') + '"'
+
+def tokens_of(t):
+    for x in t:
+        if isinstance(x, str):
+            yield x
+        else:
+            for y in tokens_of(x):
+                yield y
+
+def unencodable_tokens(r):
+    return [t for t in tokens_of(r) if not valid_unicode(t)]
+
+def in_surrogate_class(s, r):
+    """known-finding class: a token of the result contains a code point in U+D800..U+DFFF (a str that
+    cannot be encoded) and the input text contains a backslash-u / backslash-U escape (the only source:
+    the unicode_escape decoder accepts \\ud800..\\udfff and the latin-1/utf-8 step then gives up)"""
+    return ('\\u' in s or '\\U' in s) and any(0xD800 <= ord(c) <= 0xDFFF for t in unencodable_tokens(r) for c in t)
 
 def in_dqrepr_class(x):
     """known-finding class: every code point <= U+00FF, at least one non-ASCII, and the code points
@@ -314,6 +332,10 @@ class Explorer(object):
             ok = False; msg = 'tokenize(%r) under %r gives %s, required %r' % (s, conf_input(cf), (repr(r) if r is not None else out), expect)
         elif (not cf[0] or (cf[1] == '' and not cf[2])) and r is not None and any(not isinstance(x, str) for x in r):
             ok = False; msg = 'nesting is off but tokenize(%r) contains a sub-list: %r' % (s, r)
+        elif r is not None and unencodable_tokens(r):
+            ok = False; msg = 'tokenize(%r) contains a token that is not a string of Unicode scalar values (cannot be encoded): %r' % (s, unencodable_tokens(r))
+            if in_surrogate_class(s, r):
+                finding = FINDING_SURR
         tags = list(extra_tags)
         o = out.split('\t')
         if o[0] == 'syntax': tags.append('err:' + o[1])
@@ -442,10 +464,15 @@ def finding_status(impl):
     st = {}
     for f in verdict.load_findings(PROPERTY):
         w = f.get('witness', {})
-        xs = w.get('xs', [])
         cf = (w.get('nested', True), w.get('brackets', '[]'), w.get('pipeSyntax', False), w.get('quotes', '"'))
-        out, r = impl.tokenize(cf, ' '.join(impl.ustr.dqrepr(x) for x in xs))
-        st[f['id']] = (r != xs, 'tokenize(dqrepr(%r)) = %r' % (xs, r if r is not None else out))
+        if 'xs' in w:
+            xs = w['xs']
+            out, r = impl.tokenize(cf, ' '.join(impl.ustr.dqrepr(x) for x in xs))
+            st[f['id']] = (r != xs, 'tokenize(dqrepr(%r)) = %r' % (xs, r if r is not None else out))
+        else:
+            out, r = impl.tokenize(cf, w['s'])
+            bad = unencodable_tokens(r) if r is not None else []
+            st[f['id']] = (bool(bad), 'tokenize(%r) = %r: a token that cannot be encoded (lone surrogate)' % (w['s'], r if r is not None else out))
     return st
 
 COUNTS_QUICK = dict(raw=80000, quote=30000, dqrepr=20000, nest=12000, nestw=12000, deep=40, T=15000, lex=25000, handle=25000, uesc=20000, writers=6000)
@@ -455,7 +482,8 @@ def run(ctx):
     impl = Impl()
     scale = 12 if ctx.thorough else 1
     n = {k: v * scale for k, v in COUNTS_QUICK.items()}
-    corpus = load_corpus() + [dict(xs=f['witness']['xs'], writer='dqrepr') for f in verdict.load_findings(PROPERTY) if 'xs' in f.get('witness', {})]
+    corpus = load_corpus() + [dict(xs=f['witness']['xs'], writer='dqrepr') for f in verdict.load_findings(PROPERTY) if 'xs' in f.get('witness', {})] \
+        + [dict(s=f['witness']['s']) for f in verdict.load_findings(PROPERTY) if 's' in f.get('witness', {})]
     ex = explore(impl, rng.make('c13'), n, corpus)
     cases = fill_model(ex) if build.driver_ok else ex.cases
     def search(disagreements, broken):
